@@ -35,7 +35,10 @@ Observed(e) == ToSet(e.touched)
 \* the code as written predicts for exactly these names and options?
 ObsOutside(e)  == {p \in Observed(e) : ~Below(e.out, p)}
 PredOutside(e) == {p \in Predicted(e, FALSE) : ~Below(e.out, p)}
-EscapeKind(e) == IF e.out = OutAbs /\ ObsOutside(e) \subseteq PredOutside(e) /\ \A p \in ToSet(e.removed) : Below(e.out, p)
+RawOutside(e)  == {p \in ToSet(e.created) \cup ToSet(e.modified) : ~Below(e.out, p)}
+EscapeKind(e) == IF /\ e.out = OutAbs /\ ObsOutside(e) \subseteq PredOutside(e)
+                    /\ Cardinality(RawOutside(e)) = Cardinality(ObsOutside(e))       \* `touched` is an injective renaming of created + modified
+                    /\ \A p \in ToSet(e.removed) : Below(e.out, p)
                  THEN "escape-as-modelled" ELSE "escape-unmodelled"
 
 Diag(e) == IF e.built # "ok" \/ e.exit < 0 THEN PrintT(<<"DRIFT", tl, "run not performed: " \o e.built>>)
